@@ -337,6 +337,64 @@ def default_longest(g):
     return lp
 
 
+def float_lit(x):
+    """Coq primitive-float literal (exact, hexadecimal)"""
+    return '(%s)%%float' % float(x).hex()
+
+
+def pair_value(me):
+    """(mantissa, exponent) printed by Coq's float_pair -> exact Fraction (None for inf/nan)"""
+    m, e = me
+    if e == 99999:
+        return None
+    return Fraction(m) * Fraction(2) ** e
+
+
+def ugly_float_table(rng):
+    """float delays that are NOT exactly representable sums: decimal fractions, thirds, a huge
+    value that absorbs small ones (1e16 + 1 == 1e16), tiny values"""
+    pool = [0.1, 0.2, 0.3, 1.0 / 3.0, 0.7, 1.0, 1e-9, 1e16, 2.5, 1e-3, 123.456]
+    tab = {}
+    for ch in OPS:
+        if ch in 'r@':
+            tab[ch] = (-1.0, 0.0)
+        else:
+            tab[ch] = (rng.choice(pool), rng.choice([0.0, 0.0, 0.1, 1.0 / 7.0]))
+    return tab
+
+
+def ugly_delay(tab, n):
+    a, b = tab[n.op]
+    return a + b * (n.op_param[1].id if n.op == 'm' else len(n.args[0]))
+
+
+def float_path_sums(g, delay, w, budget):
+    """for EVERY register-free source path to w: the gate delays summed LEFT TO RIGHT from the
+    source in float arithmetic, starting from 0 (the order the analysis itself uses)"""
+    sums = []
+    stack = [(w, ())]
+    while stack:
+        x, suffix = stack.pop()
+        if isinstance(x, SRC_TYPES):
+            t = 0
+            for d in suffix:
+                t = t + d
+            sums.append(t)
+            continue
+        n = g.producer.get(x)
+        if n is None:
+            continue
+        d = delay(n)
+        if d < 0:
+            continue
+        budget[0] -= 1 + len(suffix)
+        if budget[0] < 0:
+            raise TooBig()
+        for a in n.args:
+            stack.append((a, (d,) + suffix))
+    return sums
+
+
 def close(a, b):
     return abs(a - b) <= 1e-9 * max(1.0, abs(a), abs(b))
 
@@ -815,6 +873,56 @@ def analyse(ctx, i, found, exprs, cases, fq_exprs, fq_cases):
                  {'memory': mem.name, 'max_read_ports': mem.max_read_ports, 'max_write_ports': mem.max_write_ports,
                   'expected': list(exp), 'got': list(got)})
 
+    # ---- float delays, EXACTLY: (1) the default table, (2) a custom table of awkward floats.
+    # spec: timing_map[w] == max over explicitly enumerated source paths of the left-to-right float
+    # sum (C17_timing_is_longest_path_ordered at D = binary64); every critical path sums to
+    # max_length (==).  tie: TimingOrd.v evaluated in Coq's primitive floats on the same delays.
+    utab = ugly_float_table(rng)
+    tu = TimingAnalysis(gate_delay_funcs={
+        ch: ((lambda mem, a=a, b=b: a + b * mem.id) if ch == 'm' else (lambda width, a=a, b=b: a + b * width))
+        for ch, (a, b) in utab.items()}, **bk)
+    fruns = []
+    for label, tf, dfun in (('default table', td, lambda n: default_delay(g, n)),
+                            ('custom float table', tu, lambda n: ugly_delay(utab, n))):
+        fbudget = [60000]
+        try:
+            for w in dump.wires:
+                sums = float_path_sums(g, dfun, w, fbudget)
+                exp = max(sums) if sums else None
+                got = tf.timing_map.get(w)
+                if exp is None or got is None or not (got == exp):
+                    viol('timing:float-not-longest-path',
+                         '%s: timing_map[%s] = %r, max over all source paths of the left-to-right float sum = %r'
+                         % (label, w.name, got, exp), {'table': label, 'wire': w.name, 'expected': exp, 'got': got,
+                                                       'custom_float_table(op:(a,b) => a+b*width)': utab})
+                    break
+            ctx.count('float longest-path oracle', 'explicit enumeration')
+        except TooBig:
+            ctx.count('float longest-path oracle', 'skipped (too many paths)')
+        fmax = tf.max_length()
+        if not (fmax == max(tf.timing_map.values())):
+            viol('max_length', '%s: max_length() is not the largest timing_map value' % label, {})
+        fcps, fprinted = quiet(tf.critical_path, print_cp=False, cp_limit=cp_limit)
+        for fw, p in fcps:
+            t = 0
+            cur = fw
+            okp = isinstance(fw, SRC_TYPES)
+            for n in p:
+                okp = okp and any(a is cur for a in n.args) and dfun(n) >= 0
+                t = t + dfun(n)
+                cur = n.dests[0] if n.dests else None
+            if not okp or not (t == fmax):
+                viol('critical_path:float-sum', '%s: a returned critical path from %s sums (left to right, in '
+                     'floats) to %r, max_length = %r' % (label, fw.name, t, fmax),
+                     {'table': label, 'path': net_strs(p), 'custom_float_table(op:(a,b) => a+b*width)': utab})
+                break
+        fruns.append(dict(label=label,
+                          tm=[tf.timing_map.get(w) for w in dump.wires], keys=[wid[w] for w in tf.timing_map],
+                          mx=fmax, cp=[(wid[fw], [nix[n] for n in p]) for fw, p in fcps],
+                          hit='limit reached' in fprinted,
+                          expr='c17_float_case %s [%s] %d' % (
+                              dump.coq(), '; '.join(float_lit(dfun(n)) for n in dump.nets), cp_limit)))
+
     # ---- max_freq (spec: exact rational formula; model: translated formula)
     tech = rng.choice([7, 45, 65, 130, 250, 1000, rng.randint(1, 500)])
     ff = rng.choice([None, None, 0, 50, 383, rng.randint(1, 2000)])
@@ -840,7 +948,8 @@ def analyse(ctx, i, found, exprs, cases, fq_exprs, fq_cases):
     ncomb = sum(1 for n in g.nets if n.op not in 'r@')
     cases.append(dict(i=i, kind=kind, style=style, rep=base_rep, impl_tm=impl_tm, impl_keys=impl_keys,
                       impl_max=impl_max, impl_cp=impl_cp, impl_fan=impl_fan, limit_hit=limit_hit,
-                      impl_mem=impl_mem, impl_multi=impl_multi,
+                      impl_mem=impl_mem, impl_multi=impl_multi, fruns=fruns,
+                      wire_names=[w.name for w in dump.wires],
                       impl_paths=[sorted(tuple(nix[n] for n in p) for p in ps) for ps in impl_paths],
                       queries=[(s.name, d.name) for s, d in queries], cp_limit=cp_limit,
                       nbase=sum(1 for w in ta.timing_map if isinstance(w, SRC_TYPES)),
@@ -921,6 +1030,41 @@ def run(ctx, only=None):
         for what, model, impl in bad:
             ctx.model_mismatch('pyrtl.analysis and the Coq model disagree on %s (case %d)' % (what, c['i']),
                                dict(rep, model=model, impl=impl))
+    # ---- tie in float arithmetic: TimingOrd.v at D = binary64 (Coq primitive floats)
+    fjobs = [(c, fr) for c in cases for fr in c['fruns']]
+    if fjobs:
+        try:
+            fres = ctx.coq_eval([fr['expr'] for _, fr in fjobs], IMPORTS + '\nFrom Coq Require Import Floats.',
+                                tag='c17float', shard=10 if ctx.tier == 'quick' else 40, jobs=12)
+        except Exception as e:
+            fres = None
+            ctx.model_mismatch('Analysis/TimingOrd.v (float instance) could not be evaluated: %s' % str(e)[-800:], {})
+        for (c, fr), res in zip(fjobs, fres or []):
+            m_tm, m_keys, m_mx, m_cp = res
+            rep = dict(c['rep'], table=fr['label'])
+            bad = []
+            mt = [None if v is None else pair_value(v) for v in m_tm]
+            it = [None if v is None else Fraction(v) for v in fr['tm']]
+            if mt != it:
+                k = [a != b for a, b in zip(mt, it)].index(True)
+                bad.append(('timing_map[%s]' % c['wire_names'][k], str(mt[k]), repr(fr['tm'][k])))
+            nb = c['nbase']
+            if sorted(m_keys[:nb]) != sorted(fr['keys'][:nb]) or list(m_keys[nb:]) != fr['keys'][nb:]:
+                bad.append(('timing_map key order', list(m_keys), fr['keys']))
+            if pair_value(m_mx) != Fraction(fr['mx']):
+                bad.append(('max_length', str(pair_value(m_mx)), repr(fr['mx'])))
+            mcp = [(x, list(p)) for x, p in m_cp]
+            if fr['mx'] > 0:
+                if mcp != fr['cp']:
+                    bad.append(('critical_path', mcp, fr['cp']))
+            elif not fr['hit'] and len(fr['cp']) < c['cp_limit']:
+                if sorted(mcp) != sorted(fr['cp']):
+                    bad.append(('critical_path (as multiset, max_length=0)', mcp, fr['cp']))
+            for what, model, impl in bad:
+                ctx.model_mismatch('TimingAnalysis with float delays (%s) and the Coq model at D = binary64 '
+                                   'disagree on %s (case %d)' % (fr['label'], what, c['i']),
+                                   dict(rep, model=model, impl=impl))
+        ctx.count('float-arithmetic model comparisons', 'done', len(fres or []))
     if fq_exprs:
         try:
             fr = ctx.coq_eval(fq_exprs, IMPORTS_FREQ, tag='c17freq', shard=200, jobs=4)
